@@ -145,3 +145,36 @@ func UniverseAmt() *Universe {
 	_ = tM
 	return b.Done()
 }
+
+// UniverseC12: four funded identities and one key written in block k1, with
+// independent candidate transactions for concurrency patterns:
+// wB, wC (writers of k1 at its k1 version), rD, rA (readers of it), sB1, sB2
+// (two spenders of B's genesis output), tC (independent transfer by C).
+//
+//	g - k1 - k2 (k2 carries only the award)
+func UniverseC12() *Universe {
+	cfg := DefaultConfig()
+	cfg.Quotas = map[string]string{"A": "1000", "B": "1000", "C": "1000", "D": "1000"}
+	b := NewUniverse("U-c12", cfg, RegisterVKV)
+	root := b.Root()
+	b.At("g")
+	kvA := b.KV("kvA", "A", "put k1 x", []In{{Tx: root, Offset: 0}})
+	b.Block("k1", "M")
+	b.Block("k2", "P")
+	b.At("k1")
+	mk := func(name, who, prog string, in In) {
+		tx, _, err := b.W.BuildKVTx(who, prog, []In{in}, name)
+		if err != nil {
+			panic(err)
+		}
+		b.Raw(name, tx, false)
+	}
+	mk("wB", "B", "put k1 p1", In{Tx: root, Offset: 1})
+	mk("wC", "C", "put k1 p2", In{Tx: root, Offset: 2})
+	mk("rD", "D", "get k1", In{Tx: root, Offset: 3})
+	mk("rA", "A", "get k1", In{Tx: kvA, Offset: len(kvA.TxOutputs) - 1})
+	b.Raw("sB1", BuildTx(TxSpec{Initiator: "B", Ins: []In{{Tx: root, Offset: 1}}, Outs: []Out{{To: "A", Amount: "1000"}}, Nonce: "sB1"}), false)
+	b.Raw("sB2", BuildTx(TxSpec{Initiator: "B", Ins: []In{{Tx: root, Offset: 1}}, Outs: []Out{{To: "C", Amount: "999"}, {To: "$", Amount: "1"}}, Nonce: "sB2"}), false)
+	b.Raw("tC", BuildTx(TxSpec{Initiator: "C", Ins: []In{{Tx: root, Offset: 2}}, Outs: []Out{{To: "D", Amount: "1000"}}, Nonce: "tC"}), false)
+	return b.Done()
+}
